@@ -24,7 +24,8 @@ ACTIONS = ["Enqueue", "Finish", "StartReceive", "CancelRequest", "Wake", "Drain"
 
 
 class FakeErr(Exception):
-    pass
+    def __bool__(self):
+        return False    # exceptions are user objects too: nothing may decide by their truthiness
 
 
 class QueueDriver:
@@ -177,7 +178,8 @@ def gen_trace(rnd, length):
 
 
 class _WorkErr(Exception):
-    pass
+    def __bool__(self):
+        return False    # exceptions are user objects too: nothing may decide by their truthiness
 
 
 def real_loop_traces(rnd, runs):
